@@ -346,6 +346,15 @@ def run(chk: Check):
     if "SpeedNonNeg" not in rr.violated:
         raise tlc.TLCFailure("vacuity guard: TLC did not find the clock-outside-lock race in the racy design")
     chk.notes["racy_design_counterexample_found"] = True
+    # track() with its _TrackThread: all interleavings of the consumer loop and the timer thread
+    rt, covt, misst = tlc.model_check("MC_Track", require_actions=["Yield", "Inc", "SetDone", "Join", "WaitDone", "WaitTimeout", "Read", "Advance", "Final"])
+    chk.add_tlc(rt, "M1-track-thread")
+    if rt.violated or misst:
+        raise tlc.TLCFailure("MC_Track violated=%s missing=%s" % (rt.violated, misst))
+    rtn, _, _ = tlc.model_check("MC_Track", cfg="MC_Track_nofinal")
+    chk.add_tlc(rtn, "M1-track-guard")
+    if "CompletedIsCount" not in rtn.violated:
+        raise tlc.TLCFailure("vacuity guard: TLC did not refute track() without its final update")
     if chk.thorough:
         c3 = open(tlc.SPECS + "/MC_ProgressConc.cfg").read().replace("Threads = {1, 2}", "Threads = {1, 2, 3}").replace("OpsPerThread = 2", "OpsPerThread = 1")
         r3, _, _ = tlc.model_check("MC_ProgressConc", cfg_text=c3)
